@@ -43,7 +43,7 @@ RULE = (
     "conversions between distinct frames, hence is non-trivial; cases are distinct by construction (distinct tuples)"
 )
 BOUNDS = {
-    "quick": "17 frames, all 17x16x16 triples; 5 dates (real EOP) / 3 (zero EOP) / 2+2 (missing EOP, pass and warning); 3 states; "
+    "quick": "17 frames, all 17x16x16 triples; 5 dates (real EOP) / 2 (zero EOP) / 1+1 (missing EOP, pass and warning); 3 states; "
     "error policy: Date construction must raise",
     "thorough": "17 frames, all triples; 12 dates x 4 configurations; 4 states (LEO, GEO, ground point, HEO perigee)",
 }
@@ -52,6 +52,9 @@ ASSUMPTIONS = [
     "dates are given in UTC, at least 10 s away from midnight, never on a leap-second day",
     "Julian-date quantisation of the library (40 us) bounds the sidereal-angle comparison at omega x 50 us = 3.6e-9 rad",
     "blank LOD in IERS prediction rows: only |LOD| <= 5 ms is required of the rate (the fill rule is a data policy)",
+    "frames of date (MOD, TOD, TEME, ...) are treated as non-rotating by the velocity map, as in every textbook reduction: the "
+    "precession+nutation rate (<= 1.5e-11 rad/s, 0.1-0.6 mm/s) is allowed for in the finite-difference tolerance; the property "
+    "names the Earth-rotation coupling only",
     "kinematic clause: frames of the property's quantifier (built-in, stations, orbit-attached); Moon/Sun frames excluded "
     "from the finite-difference check (their velocity is documented as a crude 1-day numerical difference) and counted",
 ]
@@ -87,7 +90,8 @@ DATES = [
     (2016, 2, 9, 0, 0, 30, 0),  # 10 MJD 57427, among the last rows with LOD
     (2016, 6, 15, 12, 0, 0, 0),  # 11 MJD 57554: LOD, dPsi/dEps, dX/dY blank (prediction rows)
 ]
-QUICK_DATES = {"real": [0, 4, 5, 7, 11], "zero": [2, 5, 8], "pass": [1, 7], "warning": [4, 10]}
+QUICK_DATES = {"real": [0, 4, 5, 7, 11], "zero": [2, 8], "pass": [7], "warning": [5]}
+SLOW_RATE = 1.5e-11  # rad/s, precession + nutation rate of the frames of date (neglected by the velocity map)
 MU_S = 50e-6  # time resolution of the Earth-rotation code (DESIGN.md §3, property texts: "50 us")
 
 _G = {}
@@ -390,18 +394,19 @@ def check_matrix(ctx, cfg, A, B, t):
     S = -L @ R.T
     sym = float(np.max(np.abs(S + S.T)))
     if not t.margin("6x6 lower-left: symmetric part of -L R^T [rad/s] / 1e-18", sym, 1e-18, case):
-        t.fail(f"rate/not-a-cross-product/{sig}", "lower-left block is -[w]x R", case, 0.0, sym, f"{A}->{B}")
+        t.fail("rate/not-a-cross-product", "lower-left block is -[w]x R", case, 0.0, sym, f"{A}->{B}")
     w = er.vee(S)
     wn = float(np.linalg.norm(w))
     kind, sgn = expected_rate_kind(A, B)
     ref = ctx["ref"]
     if kind == "zero":
-        if not t.margin("rate between co-rotating frames [rad/s] / 1e-18", wn, 1e-18, case):
-            t.fail(f"rate/spurious/{sig}", "no rate between frames that do not rotate w.r.t. each other", case, 0.0, w.tolist(), f"{A}->{B}")
+        if wn > 1e-18:  # exactly 0 on the unchanged tree (no rate-carrying edge on the path)
+            t.fail("rate/spurious", "no rate between frames that do not rotate w.r.t. each other", case, 0.0, w.tolist(), f"{A}->{B}")
     elif kind == "double":
-        # both chains' Earth-rotation vectors cancel up to the angle between the two celestial poles (< 0.1")
-        if not t.margin("rate residual 1980-vs-2010 chain [rad/s] / (omega x 0.1 arcsec)", wn, er.OMEGA_EARTH * 0.1 * er.ARCSEC, case):
-            t.fail(f"rate/chains-disagree/{sig}", "inertial frames of the two chains do not rotate w.r.t. each other", case, 0.0, w.tolist(), f"{A}->{B}")
+        # 1980 side <-> 2010 side passes through the Earth-fixed frames, where both chains share the pole up to the
+        # third-order commutator of the polar-motion angles (x^2 y < 3e-17): the two Earth-rotation vectors cancel
+        if not t.margin("rate residual 1980 side <-> 2010 side [rad/s] / 1e-18", wn, 1e-18, case):
+            t.fail("rate/chains-disagree", "inertial frames of the two chains do not rotate w.r.t. each other", case, 0.0, w.tolist(), f"{A}->{B}")
     else:
         if ref.rate is not None:
             ok = t.margin("Earth rate |w| vs omega(1 - LOD/86400) [rad/s] / 1e-18", abs(wn - ref.rate), 1e-18, case)
@@ -410,7 +415,7 @@ def check_matrix(ctx, cfg, A, B, t):
             ok = t.margin("Earth rate |w| vs nominal, LOD blank [rad/s] / (omega x 5 ms/day)", abs(wn - er.OMEGA_EARTH), er.OMEGA_EARTH * 5e-3 / 86400, case)
             exp = er.OMEGA_EARTH
         if not ok:
-            t.fail(f"rate/magnitude/{sig}", "Earth-rotation coupling uses omega (1 - LOD/86400)", case, exp, wn, f"{A}->{B}")
+            t.fail("rate/magnitude", "Earth-rotation coupling uses omega (1 - LOD/86400)", case, exp, wn, f"{A}->{B}")
         # direction: +z of the intermediate pole when going inertial -> Earth-fixed; checked where an end frame has that pole as z
         zaxis = {"TOD", "TEME", "PEF", "TIRF", "CIRF"}
         wz = None
@@ -421,7 +426,7 @@ def check_matrix(ctx, cfg, A, B, t):
         if wz is not None:
             dev = float(np.linalg.norm(wz - np.array([0.0, 0.0, sgn * wn])))
             if not t.margin("Earth rate direction: |w - (+-)|w| z| [rad/s] / 1e-18", dev, 1e-18, case):
-                t.fail(f"rate/direction/{sig}", "w is parallel to z, positive from inertial to Earth-fixed", case, [0, 0, sgn * wn], wz.tolist(), f"{A}->{B}")
+                t.fail("rate/direction", "w is parallel to z, positive from inertial to Earth-fixed", case, [0, 0, sgn * wn], wz.tolist(), f"{A}->{B}")
     t.outcome(("matrix", sig, kind))
     # the matrix is what conversions of states apply (same-centre frames): x_B = M x_A, norms preserved
     for si in (0, 1):
@@ -437,8 +442,9 @@ def check_matrix(ctx, cfg, A, B, t):
         a = arr(xA)
         tp, tv = tol_pv([a, xB])
         d = M @ a - xB
-        okp = t.margin("state conversion vs 6x6 matrix, position [m / tol]", float(np.linalg.norm(d[:3])), tp, case)
-        okv = t.margin("state conversion vs 6x6 matrix, velocity [m/s / tol]", float(np.linalg.norm(d[3:])), tv, case)
+        # same arithmetic as the library's own M @ x (observed difference: exactly 0), so no margin is reported
+        okp = float(np.linalg.norm(d[:3])) <= tp
+        okv = float(np.linalg.norm(d[3:])) <= tv
         if not (okp and okv):
             t.fail(f"transform-vs-matrix/{sig}", "same-centre conversion is x -> M x", case, (M @ a).tolist(), xB.tolist(), f"{A}->{B} state {si}")
         nr = abs(float(np.linalg.norm(xB[:3])) - float(np.linalg.norm(a[:3])))
@@ -461,6 +467,10 @@ def fd_plan(ctx, si, B):
     angular rates that compose (orbit, orbit of the frame's origin, Earth rotation); doubled for eccentricity harmonics.
     quantisation: positions that went through the Earth-rotation angle carry |omega x r| x 50 us of noise, which the
     stencil (sum |c_k| = 1.5 / h) turns into velocity noise.  round-off: 8 eps L x 1.5 / h.
+    slow: frames "of date" (MOD, TOD, TEME and everything built on them) are treated by the library - as by every
+    textbook reduction - as non-rotating: the precession (7.7e-12 rad/s) + nutation (< 4e-12 rad/s) rate is not part
+    of the velocity map; the property names the Earth-rotation coupling only.  Allowance 1.5e-11 rad/s x r.
+    The stencil stays inside one UTC day (EOP records are per-day constants: the position map jumps at midnight).
     """
     s = ctx["states"][si]
     crossing = (s["base"] in ROTATING) != (B in ROTATING)
@@ -469,12 +479,13 @@ def fd_plan(ctx, si, B):
     W = s["n"] + (ctx["n_lof"] if B in ("O0", "OQ", "OT") else 0.0) + (7.2921e-5 if crossing else 0.0)
     best = None
     for h in (120.0, 30.0, 10.0):
-        if crossing and not (2 * h < ctx["sod"] < 86400.0 - 2 * h):
-            continue  # the EOP record changes at UTC midnight: keep the stencil inside the day
+        if not (2 * h < ctx["sod"] < 86400.0 - 2 * h):
+            continue
         trunc = 2.0 * h**4 / 30.0 * L * W**5
         floor = (7.2921e-5 * r_state * MU_S * 1.5 / h) if crossing else 0.0
         ro = 8 * EPS * max(L, 1.0) * 1.5 / h
-        tol = trunc + floor + ro + 1e-9
+        slow = SLOW_RATE * r_state
+        tol = trunc + floor + ro + slow + 1e-9
         if best is None or tol < best[1]:
             best = (h, tol)
     return best
@@ -497,7 +508,7 @@ def check_fd(ctx, cfg, si, B, t):
     base_side = side(ctx["states"][si]["base"])
     ok = t.margin(f"velocity vs 5-point d/dt of position, {klass(B)} frames [m/s / tol]", err, tol, case)
     if not ok or not (err == err):
-        t.fail(f"kinematics/{klass(B)}/from-{base_side}", "converted velocity equals the time derivative of the converted position", case,
+        t.fail(f"kinematics/{klass(B)}", "converted velocity equals the time derivative of the converted position", case,
                fd.tolist(), ys[0][3:].tolist(), f"state {ctx['states'][si]['name']} in {B}: |v - dr/dt| = {err:.4e} m/s (h={h:g} s, tol {tol:.2e})")
     t.outcome(("fd", klass(B), base_side, bool(ok)))
     t.ev((cfg["eop"], ctx["dt"], "fd", si, B))
